@@ -308,6 +308,21 @@ pub fn run_c19(ctx: &mut Ctx) {
             .collect();
         let n = [0usize, 1, 2, 4, 60, 124, 128][ctx.rng.random_range(0..7)];
         let norm = ctx.rng.random_bool(0.5);
+        // the same word in two spellings that the normalisation unifies, on one line (a with diaeresis precomposed
+        // and decomposed; the fi ligature): their counts must add up
+        let lines: Vec<String> = if i % 4 == 3 {
+            lines
+                .into_iter()
+                .map(|l| {
+                    let extra: Vec<String> = l.split(' ').filter(|w| w.contains('\u{e4}') && ctx.rng.random_bool(0.6)).map(|w| w.replace('\u{e4}', "a\u{308}")).collect();
+                    if extra.is_empty() { l } else { format!("{l} {}", extra.join(" ")) }
+                })
+                .collect()
+        } else if i % 16 == 2 {
+            lines.into_iter().map(|l| if l.contains("ab") { format!("{l} \u{fb01} fi fi\u{fb01}") } else { l }).collect()
+        } else {
+            lines
+        };
         let threads = [0u8, 1, 3][ctx.rng.random_range(0..3)];
         // one file and no limit for half of the corpora; otherwise 2-3 files and / or max_lines_per_file
         let lay = if ctx.rng.random_bool(0.5) { Layout { nfiles: 1, maxl: 0 } } else { Layout { nfiles: ctx.rng.random_range(1..=3), maxl: ctx.rng.random_range(0..=4) } };
